@@ -768,11 +768,14 @@ pub fn run(ctx: &mut Ctx) {
     ctx.emit(&format!("c22 cfg {PARTITIONS} {BUCKETS}"), "ok");
     let (histories, max_steps) = if ctx.thorough() { (6000, 45) } else { (700, 40) };
     let t0 = std::time::Instant::now();
-    let budget = Duration::from_secs(if ctx.thorough() { 400 } else { 30 });
+    // the thorough budget is split over several harness processes (VH_CHUNKS): every reset opens a fresh
+    // database and sierradb never stops the reader threads of a closed one (DESIGN 10.2e)
+    let budget = Duration::from_secs(if ctx.thorough() { 400 / crate::store_run::chunks() as u64 } else { 30 });
     let mut run = Run { ctx, srv, conns: [None, None, None], hist: vec![], shadow: vec![], subs: vec![] };
     run.delayed_confirmation();
     for h in 0..histories {
         if t0.elapsed() > budget { run.ctx.stat("budget_cut"); break; }
+        if h % 16 == 0 && std::fs::read_dir("/proc/self/fd").map(|d| d.count()).unwrap_or(0) > 12_000 { run.ctx.stat("descriptor_cap_cut"); break; }
         run.reset();
         let g = Gen::new(&mut run.ctx.rng);
         let steps = if h % 7 == 0 { 4 + run.ctx.rng.below(6) } else { 10 + run.ctx.rng.below(max_steps - 10) };
